@@ -453,8 +453,8 @@ def check_pseudo(ctx, eng):
                 if '_RESPONSE_ONLY_HEADERS' in last:
                     clauses['resp-in-req'] = True
                 if '_CONNECT_REQUEST_ONLY_HEADERS' in last and (any(
-                        "b'CONNECT'" in c and ('!=' in c or 'not' in c)
-                        for c in conds) or any(
+                        _raw_not_connect(e.cond) for e in p.events
+                        if e.kind == 'assume') or any(
                         c.startswith('not ') and c[4:] in f2.params and
                         _flag_is_connect(eng, f2, c[4:]) for c in conds)):
                     clauses['connect'] = True
@@ -508,6 +508,25 @@ def check_pseudo(ctx, eng):
                                 'not (bytes_header in header_set)'}
     ctx.ob('ORD.clause', f3.qual, 'required field missing => refusal', ok,
            'ProtocolError iff neither spelling is in the set', node=f3.node)
+
+
+def _raw_not_connect(cond):
+    """`<parameter> != b'CONNECT'` on the method as it is (the method token
+    is case-sensitive: no .upper()/.lower()/.strip() in between)."""
+    neg = False
+    c = cond
+    while c[0] == 'not':
+        neg = not neg
+        c = c[1]
+    if c[0] not in ('eq', 'ne'):
+        return False
+    if (c[0] == 'ne') == neg:
+        return False        # this literal says "is CONNECT"
+    a, b = c[1], c[2]
+    for x, y in ((a, b), (b, a)):
+        if x[0] == 'p' and y == T.C(b'CONNECT'):
+            return True
+    return False
 
 
 def _flag_is_connect(eng, fi, pname):
